@@ -12,7 +12,7 @@ Calls == [k : {"F"}, pt : 1..2, batch : 1..2] \cup [k : {"G", "FG"}, pt : 1..2, 
 RWs(R) == {[r \in 1..R |-> 1], [r \in 1..R |-> IF r = 1 THEN 0 ELSE r], [r \in 1..R |-> IF r = R THEN 0 ELSE 1]}
 
 Init == /\ \E R \in RSet : \E P \in PSet : \E rw \in RWs(R) :
-           \E filt \in {"none", "sortobj", "cvarobj", "cononly", "conmixed"} : \E tf \in BOOLEAN : \E memo \in {"fresh", "arrays", "object", "roviews"} :
+           \E filt \in {"none", "sortobj", "sortobjcon", "cvarobj", "cononly", "conmixed"} : \E tf \in BOOLEAN : \E memo \in {"fresh", "arrays", "object", "roviews"} :
              cfg = [R |-> R, P |-> P, rw |-> rw, filt |-> filt, tf |-> tf, memo |-> memo]
         /\ hist = <<>> /\ cache = 0 /\ reqs = <<>>
 
